@@ -39,6 +39,24 @@ CLAIMED["C06"] = dict(
    technique="Coq proof (structural induction, axiom-free) + AST translator + extracted-model correspondence",
    design="DESIGN.md section 4, C06")
 
+CLAIMED["C10"] = dict(
+   text="Axiom-free Coq proof over a state-machine model of Linear's cache protocol (training flag, using_cache flag, "
+        "three optional cached entries each remembering the parameter version, dtype and graph liveness it was built "
+        "from): an invariant (cache empty while training; every cached entry built from the current parameters in "
+        "the current dtype) is preserved by every operation, and by induction over the history every forward/inverse "
+        "observes exactly what recomputation from the current parameters observes - for ALL finite histories over "
+        "{train, eval, use_cache, forward, inverse, optimiser step in training mode, load_state_dict, dtype change} "
+        "and backward passes wherever the cache is not consulted. The full statement including repeated "
+        "back-propagation through the cached matrix is proved FALSE (C10_double_backward_refuted) and recorded as a "
+        "known finding. Branch conditions, the lazy-fill logic and the invalidation hooks are regenerated from "
+        "linear.py on every run; the model is run in lock-step with the five real classes (outcome, cache flags, "
+        "which parameter version each output was built from).",
+   note="Trusted: Coq kernel (no axioms); translator (Gen/LinearCache.v); extraction; the harness's identification "
+        "of 'which version an output was built from' by recomputation with an uncached twin. Autograd graph lifetime "
+        "is abstracted to one flag per entry.",
+   technique="Coq proof (invariant + induction over histories, axiom-free) + AST translator + lock-step correspondence",
+   design="DESIGN.md section 4, C10")
+
 def main():
     checks = []
     for pid in ALL:
